@@ -174,6 +174,11 @@ func (h *Handler) Handle(cx *layer4.Connection, next layer4.Handler) error {
 	// Set conn as a custom variable on cx.
 	cx.SetVar("l4.proxy_protocol.conn", conn)
 
+	// The addresses of the connection are from now on those the header declares
+	repl := cx.Context.Value(layer4.ReplacerCtxKey).(*caddy.Replacer)
+	repl.Set("l4.conn.remote_addr", conn.RemoteAddr())
+	repl.Set("l4.conn.local_addr", conn.LocalAddr())
+
 	return next.Handle(cx.Wrap(conn))
 }
 
